@@ -645,7 +645,7 @@ fn gen_bands(out: &mut dyn FnMut(String), seed: u64, thorough: bool) {
     // rejection loops of the families re-synchronise them (seeds 1 and 3 produced identical band streams)
     let rng = &mut Rng::new((seed ^ 0x5DEECE66D).wrapping_mul(0x2545F4914F6CDD1D).rotate_left(29));
     // ---- 18a. solve / det with tiny-but-non-zero entries (seven patterns, base 2 and base 10), right-hand sides plain / tiny / banded
-    let reps = if thorough { 10 } else { 3 };
+    let reps = if thorough { 12 } else { 5 };
     for n in 2..=6usize { for pat in 0..7usize { for base in [2u32, 10] { for r in 0..reps {
         if n == 2 && pat == 6 { continue }
         let (m, e) = band_family(rng, n, pat, base);
@@ -664,6 +664,25 @@ fn gen_bands(out: &mut dyn FnMut(String), seed: u64, thorough: bool) {
         out(format!("pdet {a} {base}"));
         if r == 0 && n <= 5 { out(format!("pqr {a} {base}")); }
     } } } }
+    // ---- 18a'. solve with whole COLUMNS / ROWS of the matrix on their own scales, 2^k and 2^-k in pairs so that the determinant stays of
+    // order one (the absolute |det| < 1e-12 test passes) while pivots, multipliers and intermediate right-hand sides are as small as 2^-50
+    // or as large as 2^50.  The matrix is well-conditioned once equilibrated (cond <= 100); elimination with partial pivoting does the
+    // same arithmetic on a power-of-two row / column scaling (up to the pivot order for rows), so the same bounds apply.
+    for n in 2..=6usize { for by_rows in [false, true] { for r in 0..(if thorough { 10 } else { 4 }) {
+        let m = loop { let m = match r % 3 { 0 => rand_conditioned(rng, n), 1 => perm_diag_dominant(rng, n), _ => pivot_forcing(rng, n) };
+            if cond_cols_f(&band_mat(&m, &vec![vec![0; n]; n], 2)) <= 100. && cond_det_f(&band_mat(&m, &vec![vec![0; n]; n], 2)).0 <= 100. { break m } };
+        let mut sc = vec![0i64; n];
+        let p = rng.perm(n);
+        for pair in 0..(if n >= 4 && r % 2 == 1 { 2 } else { 1 }) { let k = *rng.pick(&[20i64, 27, 30, 34, 37, 40, 44, 50]); sc[p[2 * pair]] = k; sc[p[2 * pair + 1]] = -k; }
+        let e: M = (0..n).map(|i| (0..n).map(|j| if by_rows { sc[i] } else { sc[j] }).collect()).collect();
+        let a = show_me(&m, &e);
+        out(format!("psolve {a} {} {} 2", show_vec(&rand_rhs(rng, n, 1)), show_vec(&vec![0i64; n])));
+        // right-hand side scaled like the rows of the matrix (the solution is then that of the unscaled system) / two columns
+        let be: Vec<i64> = (0..n).map(|i| if by_rows { sc[i] } else { 0 }).collect();
+        out(format!("psolve {a} {} {} 2", show_vec(&rand_rhs(rng, n, 1)), show_vec(&be)));
+        out(format!("psolve {a} {} {} 2", show_shape(&[n, 2], &rand_rhs(rng, n, 2)), show_shape(&[n, 2], &(0..2 * n).map(|p| if p % 2 == 0 { 0 } else { be[p / 2] }).collect::<Vec<i64>>())));
+        out(format!("pdet {a} 2"));
+    } } }
     // ---- 18b. qr / det: every COLUMN (and every block of a stack) on its own scale; the matrix is well-conditioned once the columns are equilibrated
     let reps = if thorough { 12 } else { 3 };
     for n in 2..=6usize { for r in 0..reps { for fam in 0..3usize {
@@ -798,6 +817,15 @@ fn gen_giant(out: &mut dyn FnMut(String), thorough: bool) {
         let ty = if (oi + li) % 3 == 2 { "i64" } else { "f64" };
         out(format!("gnorm {len} {ty} {o} none"));
         if thorough && oi < 2 { out(format!("gnorm {len} i32 {o} none")); }
+    } }
+    // the extreme (greatest / least magnitude) at the first, the last and the 2^20-th position: a reduction that loses a boundary element loses it
+    for &len in &[20usize, 1022, 4097] { for (pi, p) in [0, len - 1, len / 2].into_iter().enumerate() {
+        for (o, c) in [("inf", '@'), ("ninf", '#'), ("i0", '#'), ("i1", '@')] { out(format!("gnorm {len} {}{c}{p} {o} none", ["f64", "i64", "i32"][pi])); }
+    } }
+    for (li, &len) in lens.iter().enumerate() { for (pi, p) in [len - 1, 0, 1 << 20, (1 << 20) - 1].into_iter().enumerate() {
+        // quick: the greatest magnitude at the last / the 2^20-th position, the least at the first / last
+        if thorough || (li, pi) == (0, 0) || (li, pi) == (2, 2) { out(format!("gnorm {len} {}@{p} inf none", if pi % 2 == 0 { "f64" } else { "i64" })); }
+        if thorough || (li, pi) == (2, 1) || (li, pi) == (1, 0) { out(format!("gnorm {len} f64#{p} ninf none")); }
     } }
     let ms: Vec<usize> = if thorough { vec![(1 << 19) + 1, (1 << 20) + 3, 1_000_003] } else { vec![(1 << 19) + 5, (1 << 20) + 3] };
     for (mi, &m) in ms.iter().enumerate() { for (fi, (o, ax, wide)) in mat_forms.iter().enumerate() {
@@ -1000,7 +1028,7 @@ fn mat_of(s: &str) -> (usize, Vec<f64>) { let (shape, e) = parse_arr_raw(s); (sh
 
 /// residual bound of an f64 solve: "to rounding accuracy".  Elimination with partial pivoting is backward stable, so whatever the
 /// condition number |A x - b| stays within a small multiple of eps * (n |A| |x| + |b|); 1e-13 is ~450 eps (the largest ratio observed on
-/// the pinned tree over all streams is below 3e-15, see claims.d).  Judged COLUMN BY COLUMN of the right-hand side (the columns are solved
+/// the pinned tree over all streams, both tiers, seeds 0-3, is below 2e-15).  Judged COLUMN BY COLUMN of the right-hand side (the columns are solved
 /// independently), so a column of tiny entries is not hidden behind a column of ordinary ones.
 const RES_TOL: f64 = 1e-13;
 fn residual_cols(n: usize, av: &[f64], xv: &[f64], bv: &[f64], tol: f64, slack: f64) -> Result<(), String> {
@@ -1696,6 +1724,20 @@ fn p_norm(args: &[&str], expected: &str) -> Option<Verdict> {
 
 /// the digit array of the `gnorm` lines: values -9 … 9, zeros included (the same formula as `digitArr` in Driver/C15.lean)
 fn digit(i: usize) -> i64 { ((i * 7 + i / 13 + i / 1021) % 19) as i64 - 9 }
+/// `f64@p`: the unique greatest magnitude (-12) at flat position p; `f64#p`: the unique least magnitude (0) at p, every other zero
+/// replaced by 5 — a reduction that loses the first / last element or an element at a block boundary loses the extreme
+#[derive(Clone, Copy)]
+enum Spike { None, Max(usize), Min(usize) }
+impl Spike {
+    fn parse(ty: &str) -> Option<(&str, Spike)> {
+        if let Some((t, p)) = ty.split_once('@') { Some((t, Spike::Max(p.parse().ok()?))) }
+        else if let Some((t, p)) = ty.split_once('#') { Some((t, Spike::Min(p.parse().ok()?))) }
+        else { Some((ty, Spike::None)) }
+    }
+    fn at(self, i: usize) -> i64 {
+        match self { Spike::None => digit(i), Spike::Max(p) => if i == p { -12 } else { digit(i) }, Spike::Min(p) => if i == p { 0 } else if digit(i) == 0 { 5 } else { digit(i) } }
+    }
+}
 /// one lane reduced in exact integer arithmetic, one square root at most
 fn lane_norm(ord: &str, lane: impl Iterator<Item = i64>) -> Option<f64> {
     Some(match ord {
@@ -1708,8 +1750,9 @@ fn lane_norm(ord: &str, lane: impl Iterator<Item = i64>) -> Option<f64> {
 }
 /// the definitions, written out directly: (shape, values) of `norm(ord, axis)` of the digit array of this shape.  Forms: a vector or a
 /// matrix as a whole (default / 2 / Frobenius; vector 1, inf, -inf, 0), one axis of a matrix, the two matrix norms 1 / inf over (0,1), (1,0)
-fn gnorm_ref(shape: &[usize], ord: &str, axis: &str) -> Option<(Vec<usize>, Vec<f64>)> {
+fn gnorm_ref(shape: &[usize], ord: &str, axis: &str, spike: Spike) -> Option<(Vec<usize>, Vec<f64>)> {
     let cnt: usize = shape.iter().product();
+    let digit = |i: usize| spike.at(i);
     match (shape.len(), axis) {
         (1, "none") => Some((vec![1], vec![lane_norm(ord, (0..cnt).map(digit))?])),
         (2, "none") if ord == "none" || ord == "fro" => Some((vec![1], vec![lane_norm("i2", (0..cnt).map(digit))?])),
@@ -1726,11 +1769,11 @@ fn gnorm_ref(shape: &[usize], ord: &str, axis: &str) -> Option<(Vec<usize>, Vec<
         _ => None,
     }
 }
-fn g_norm<T: El>(args: &[&str], expected: &str) -> Option<Verdict> {
+fn g_norm<T: El>(args: &[&str], spike: Spike, expected: &str) -> Option<Verdict> {
     let shape = parse_usize_list(args[0]);
     let cnt: usize = shape.iter().product();
     let (ord, ax) = (args[2], args[3]);
-    let (rshape, rvals) = gnorm_ref(&shape, ord, ax)?;
+    let (rshape, rvals) = gnorm_ref(&shape, ord, ax, spike)?;
     // the reference is itself compared with the model wherever the model answers (every `gnorm` line of at most 6000 elements)
     if expected != "native" {
         let body = expected.strip_prefix("ok ")?;
@@ -1740,7 +1783,7 @@ fn g_norm<T: El>(args: &[&str], expected: &str) -> Option<Verdict> {
             return mismatch(format!("harness-native reference {:?}:{:?}", rshape, &rvals[..rvals.len().min(4)]), format!("the native norm reference disagrees with the model `{}`", truncate(expected, 200)))
         }
     }
-    let a = Array::new((0..cnt).map(|i| T::of(digit(i) as f64)).collect::<Vec<T>>(), shape.clone()).ok()?;
+    let a = Array::new((0..cnt).map(|i| T::of(spike.at(i) as f64)).collect::<Vec<T>>(), shape.clone()).ok()?;
     let axis: Option<Vec<isize>> = if ax == "none" { None } else { Some(parse_isize_list(ax)) };
     let real = match std::panic::catch_unwind(std::panic::AssertUnwindSafe(|| call_norm(&a, ord, &axis, None))) { Ok(r) => r, Err(_) => return mismatch("panic".into(), "norm of a digit array panics".into()) };
     // both receivers (giant arrays: on every other line, the clone doubles the cost)
@@ -1817,7 +1860,7 @@ fn exec_case(op: &str, args: &[&str], expected: &str) -> Option<Verdict> {
         "norm" => exec_norm(args, expected),
         "qr" => exec_qr(args, expected),
         "xdet" | "xsolve" | "xnorm" | "xqr" => exec_x(op, args, expected),
-        "gnorm" if args.len() == 4 => match args[1] { "f64" => g_norm::<f64>(args, expected), "i64" => g_norm::<i64>(args, expected), "i32" => g_norm::<i32>(args, expected), _ => None },
+        "gnorm" if args.len() == 4 => { let (ty, spike) = Spike::parse(args[1])?; match ty { "f64" => g_norm::<f64>(args, spike, expected), "i64" => g_norm::<i64>(args, spike, expected), "i32" => g_norm::<i32>(args, spike, expected), _ => None } }
         "psolve" if args.len() == 5 => p_solve(args, expected),
         "pdet" if args.len() == 3 => p_det(args, expected),
         "pqr" if args.len() == 3 => p_qr(args, expected),
